@@ -56,6 +56,35 @@ Hendbitaccess(int32 bitfile_id, int flushbit)
     return FAIL;
 }
 
+/* The two memsets of HCIcnbit_init go through void* into the 6 KB coder-state object; cbmc's
+   model turns each into a byte-level update of the whole object (45 M clauses).  This model
+   re-bases them on the typed members of the harness' object (asserting that the destination is
+   exactly one of the two arrays): same bytes written, as array/field assignments. */
+#ifdef H4V_CBMC
+uint8 *g_nb_mask_buf;  /* &nbit_info.mask_buf[0] of the harness' object */
+void  *g_nb_mask_info; /* &nbit_info.mask_info[0] */
+void *
+memset(void *d, int c, size_t n)
+{
+    if (d == (void *)g_nb_mask_buf) {
+        __CPROVER_assert(n <= 16, "H4V: memset(mask_buf) stays inside mask_buf[NBIT_MASK_SIZE]");
+        for (size_t i = 0; i < 16; i++)
+            if (i < n)
+                g_nb_mask_buf[i] = (uint8)c;
+    }
+    else {
+        __CPROVER_assert(d == g_nb_mask_info && c == 0 && n == 16 * 12, "H4V: the other memset clears exactly mask_info[]");
+        struct nb_mi { int offset; int length; uint8 mask; } *mi = g_nb_mask_info;
+        for (int i = 0; i < 16; i++) {
+            mi[i].offset = 0;
+            mi[i].length = 0;
+            mi[i].mask   = 0;
+        }
+    }
+    return d;
+}
+#endif
+
 #include "cnbit.c"
 
 #define NB(ar)     (&((compinfo_t *)(ar)->special_info)->cinfo.coder_info.nbit_info)
@@ -130,6 +159,11 @@ h_cnbit_init(void)
     H4V_CHECK(sizeof(compinfo_nbit_view_t) == sizeof(compinfo_t) && offsetof(compinfo_nbit_view_t, nbit_info) == NBIT_OFF,
               "view has the layout of compinfo_t");
     compinfo_t *info = (compinfo_t *)v;
+#ifdef H4V_CBMC
+    g_nb_mask_buf  = v->nbit_info.mask_buf;
+    g_nb_mask_info = v->nbit_info.mask_info;
+    H4V_CHECK(sizeof(nbit_mask_info_t) == 12 && NBIT_MASK_SIZE == 16, "memset model matches the mask_info layout");
+#endif
     ar->special_info = info;
     info->aid        = g_bitid;
 #ifdef NB_NT
@@ -151,8 +185,10 @@ h_cnbit_init(void)
     memset(v->nbit_info.mask_info, 0x5a, sizeof(v->nbit_info.mask_info));
 #endif
     int32 r = HCIcnbit_init(ar);
-    H4V_COVER(r == SUCCEED && nt_size == 8 && mask_len == 64, "whole 64-bit value");
-    H4V_COVER(r == SUCCEED && nt_size == 4 && mask_off % 8 != 7 && (mask_off - mask_len + 1) % 8 != 0 && mask_len > 16, "field straddling bytes");
+    H4V_COVER(r == SUCCEED && mask_len == 8 * nt_size, "whole value");
+    #if !defined(NB_NT) || NB_NT > 1
+    H4V_COVER(r == SUCCEED && mask_off % 8 != 7 && (mask_off - mask_len + 1) % 8 != 0 && mask_off / 8 != (mask_off - mask_len + 1) / 8, "field straddling bytes");
+#endif
     H4V_COVER(r == SUCCEED && mask_len < 8 && mask_off / 8 == (mask_off - mask_len + 1) / 8, "field inside one byte");
     H4V_COVER(r == SUCCEED && fill_one == TRUE, "fill with ones");
     H4V_COVER(r == FAIL, "seek failure");
